@@ -15,6 +15,8 @@ use std::sync::{Arc, Barrier, Mutex};
 struct Problem {
     code: String,
     marker: String,
+    /// how often a solve for a strategy was accepted (200) for this problem
+    accepted: BTreeMap<String, u32>,
 }
 
 #[derive(Clone, Debug, Default)]
@@ -27,6 +29,9 @@ struct Model {
     identity: Option<String>,
     /// problems per owning account name
     problems: BTreeMap<String, BTreeMap<String, Problem>>,
+    /// tasks ever started per (account name, problem name): task -> count. Survives delete + re-add of a
+    /// problem, because a task of the deleted problem may still be in flight under the same key
+    started: BTreeMap<(String, String), BTreeMap<String, u32>>,
 }
 
 #[derive(Clone, Debug)]
@@ -43,6 +48,7 @@ struct Shared {
     violations: Mutex<Vec<(String, String, Value)>>,
     events: Mutex<Vec<Event>>,
     counters: Mutex<BTreeMap<String, u64>>,
+    race: Mutex<Vec<(usize, u16)>>,
     models: Mutex<Vec<Model>>,
     inconclusive: Mutex<Vec<String>>,
 }
@@ -314,6 +320,12 @@ impl<'a> UserCtx<'a> {
             self.m.accounts.remove(&old);
             self.m.accounts.insert(newname.clone(), Some(pw.clone()));
             self.m.old_passwords.push((newname.clone(), pw));
+            let keys: Vec<(String, String)> = self.m.started.keys().filter(|k| k.0 == old).cloned().collect();
+            for k in keys {
+                if let Some(v) = self.m.started.remove(&k) {
+                    self.m.started.insert((newname.clone(), k.1.clone()), v);
+                }
+            }
             let probs = self.m.problems.remove(&old).unwrap_or_default();
             self.m.problems.entry(newname.clone()).or_default().extend(probs);
             self.m.identity = Some(newname);
@@ -374,7 +386,8 @@ impl<'a> UserCtx<'a> {
                 self.shared.count("temp_accounts");
             }
             let id = self.m.identity.clone().unwrap();
-            self.m.problems.entry(id).or_default().insert(name, Problem { code, marker });
+            *self.m.started.entry((id.clone(), name.clone())).or_default().entry("Parse".into()).or_insert(0) += 1;
+            self.m.problems.entry(id).or_default().insert(name, Problem { code, marker, accepted: BTreeMap::new() });
         }
         true
     }
@@ -402,6 +415,9 @@ impl<'a> UserCtx<'a> {
                 self.shared.violation("own-problem-changed", format!("user {} get {:?}: code {:?}, submitted {:?}", self.idx, name, j["code"], own[&name].code), self.replay.clone());
                 return false;
             }
+            if !self.check_running("get", &j) {
+                return false;
+            }
         }
         true
     }
@@ -417,6 +433,11 @@ impl<'a> UserCtx<'a> {
             let j = r.json().unwrap_or(Value::Null);
             let got: BTreeSet<(String, String)> = j.as_array().map(|a| a.iter().map(|p| (p["name"].as_str().unwrap_or("").to_string(), p["code"].as_str().unwrap_or("").to_string())).collect()).unwrap_or_default();
             let want: BTreeSet<(String, String)> = own.iter().map(|(k, v)| (k.clone(), v.code.clone())).collect();
+            for p in j.as_array().cloned().unwrap_or_default() {
+                if !self.check_running("list", &p) {
+                    return false;
+                }
+            }
             if got != want || j.as_array().map(|a| a.len()) != Some(want.len()) {
                 self.shared.violation(
                     "list-differs-from-own-problems",
@@ -436,7 +457,53 @@ impl<'a> UserCtx<'a> {
         // parsing may still be running; 400 (not parsed yet) and 409 (already solved / running) are then legal too
         let expect: Vec<u16> = if self.m.identity.is_none() { vec![401] } else if own.contains_key(&name) { vec![200, 400, 409] } else { vec![404] };
         let Ok(r) = solve(&mut self.s, &name, st) else { return false };
+        if r.status == 200 {
+            if let Some(id) = self.m.identity.clone() {
+                if let Some(p) = self.m.problems.get_mut(&id).and_then(|ps| ps.get_mut(&name)) {
+                    *p.accepted.entry(st.to_string()).or_insert(0) += 1;
+                }
+                *self.m.started.entry((id.clone(), name.clone())).or_default().entry(st.to_string()).or_insert(0) += 1;
+            }
+        }
         self.check("solve", &r, &expect)
+    }
+
+    /// task book-keeping as seen by this user: a listed task must be one this user started for this problem
+    /// and its result must not be stored yet (unless the same solve was accepted twice)
+    fn check_running(&mut self, op: &str, problem: &Value) -> bool {
+        let name = problem["name"].as_str().unwrap_or("").to_string();
+        let own = self.own_problems();
+        if !own.contains_key(&name) {
+            return true;
+        }
+        let id = self.m.identity.clone().unwrap_or_default();
+        let started = self.m.started.get(&(id, name.clone())).cloned().unwrap_or_default();
+        for t in problem["running_tasks"].as_array().cloned().unwrap_or_default() {
+            self.shared.count("running_task_entries_checked");
+            let (task, field) = match t["type"].as_str() {
+                Some("Parse") => ("Parse".to_string(), "parse_only"),
+                _ => {
+                    let st = t["content"].as_str().unwrap_or("?").to_string();
+                    let f = crate::c16::field_of(&st);
+                    (st, f)
+                }
+            };
+            let accepted = started.get(&task).copied().unwrap_or(0);
+            let stored = problem["acs_per_strategy"][field]["type"].as_str().map(|x| x != "None").unwrap_or(false);
+            if accepted == 0 || (stored && accepted < 2) {
+                self.shared.violation(
+                    "task-of-someone-else-reported",
+                    format!(
+                        "user {} {}: problem {:?} lists {} as running, but this user {} (another user's same-named problem may be busy)",
+                        self.idx, op, name, task,
+                        if accepted == 0 { "never started it".to_string() } else { "already has its result stored".to_string() }
+                    ),
+                    self.replay.clone(),
+                );
+                return false;
+            }
+        }
+        true
     }
 
     fn op_delete_problem(&mut self) -> bool {
@@ -602,11 +669,13 @@ pub fn run_history(env: &Env, rep: &mut Report, run: u64, case_seed: u64, nusers
         violations: Mutex::new(Vec::new()),
         events: Mutex::new(Vec::new()),
         counters: Mutex::new(BTreeMap::new()),
+        race: Mutex::new(Vec::new()),
         models: Mutex::new(vec![Model::default(); nusers]),
         inconclusive: Mutex::new(Vec::new()),
     };
     let barrier = Arc::new(Barrier::new(nusers));
     let seeds: Vec<u64> = (0..nusers).map(|_| rng.next_u64()).collect();
+    let seed_common = rng.next_u64();
     let phase_len = 6 + rng.below(6);
     let log_start = env.stub.db.lock().unwrap().log.len();
     rep.evaluations += 1;
@@ -650,6 +719,41 @@ pub fn run_history(env: &Env, rep: &mut Report, run: u64, case_seed: u64, nusers
                             anonymous_probe(env, shared, &mut r, &replay);
                         }
                         barrier.wait();
+                        // name-uniqueness race: everybody tries to register the same fresh name at the same moment;
+                        // exactly one may win (the others get 409 or a duplicate-key 500)
+                        if (seed_common ^ step as u64) % 2 == 0 {
+                            let contested = format!("r{}contest{}", run, step);
+                            let pw = ctx.fresh_password();
+                            barrier.wait();
+                            let status = if alive && !shared.failed() {
+                                ctx.s.request("POST", "/users/register", Body::Json(json!({"username": contested, "password": pw}))).map(|r| r.status).unwrap_or(0)
+                            } else {
+                                0
+                            };
+                            shared.race.lock().unwrap().push((idx, status));
+                            if status == 200 {
+                                ctx.m.accounts.insert(contested.clone(), Some(pw.clone()));
+                                ctx.m.old_passwords.push((contested.clone(), pw));
+                            }
+                            let leader = barrier.wait().is_leader();
+                            if leader {
+                                let mut race = shared.race.lock().unwrap();
+                                let tried: Vec<u16> = race.iter().map(|(_, s)| *s).filter(|s| *s != 0).collect();
+                                let wins = tried.iter().filter(|s| **s == 200).count();
+                                let bad = tried.iter().filter(|s| ![200u16, 409, 500].contains(*s)).count();
+                                let stored = env.stub.users().iter().filter(|u| u.get_str("username") == Ok(contested.as_str())).count();
+                                shared.count("registration_races");
+                                if !tried.is_empty() && !shared.failed() && (wins != 1 || bad != 0 || stored != 1) {
+                                    shared.violation(
+                                        "account-name-not-unique-under-race",
+                                        format!("{} users registered {:?} at the same moment: statuses {:?}, {} accounts with that name stored", tried.len(), contested, tried, stored),
+                                        replay.clone(),
+                                    );
+                                }
+                                race.clear();
+                            }
+                            barrier.wait();
+                        }
                     }
                 }
             });
